@@ -85,6 +85,27 @@ def replay_deny_access(spec, vals, obligation, desc):
     return body, judge
 
 
+def replay_cav_ptr_refetch(spec, vals, obligation, desc):
+    """copy_and_verify (pointer form) on a tainted_volatile<int*> receiver while the pointer cell is rewritten after RLBox's first read"""
+    body = HOOK_PRE + 'static rlbox_sandbox<vsbx> sb;\n'
+    body += 'static void setup() { std::memset(mem, 0, sizeof(mem)); *(int32_t*)(mem + 256) = 42; *(int32_t*)(mem + 512) = 7; *(volatile uint32_t*)(mem + 64) = 256; }\n'
+    body += 'static void null_ptr() { *(volatile uint32_t*)(mem + 64) = 0; }\nstatic void redirect() { *(volatile uint32_t*)(mem + 64) = 512; }\n'
+    body += ('static void scenario(const char* name, int point, void (*act)()) {\n  g_scn = name; setup(); g_point = point; g_action = act;\n'
+             '  auto& p = *reinterpret_cast<tainted_volatile<int*, vsbx>*>(mem + 64); int calls = 0; long seen = -1;\n'
+             '  p.copy_and_verify([&](std::unique_ptr<int> v) { calls++; seen = v ? *v : -2; return 0; });\n'
+             '  std::printf("%s_seen=%ld\\n%s_calls=%d\\n", g_scn, seen, g_scn, calls);\n}\n')
+    body += ('int main(){\n  std::signal(SIGSEGV, on_segv); sb.create_sandbox(0, (uintptr_t)mem, (uintptr_t)sizeof(mem));\n'
+             '  scenario("plain", -1, nullptr);\n  scenario("redirect_after_first_read", 1, redirect);\n  scenario("null_after_first_read", 1, null_ptr);\n  return 0; }\n')
+
+    def judge(d):
+        if any(k.endswith('_crashed') and v == '1' for k, v in d.items()):
+            return True
+        return any(d.get(s + '_seen') not in (None, '42') or d.get(s + '_calls') not in (None, '1') for s in ('plain', 'redirect_after_first_read', 'null_after_first_read'))
+    return body, judge
+
+
+R.register('cav_ptr_refetch', replay_cav_ptr_refetch)
+
 R.register('cav_string', replay_cav_string)
 R.register('cav_content', replay_cav_content)
 R.register('deny_access', replay_deny_access)
